@@ -930,7 +930,7 @@ def main_gen_go(types, seed, nvals):
         if underlying(t)[0] in ("slice", "array", "map", "ptr", "struct"):
             body.append('\tdeqAlias("V%d", mkD%d())' % (i, i))
         vals.append(dict(i=i, fmt=a, d1=d1, d2=d2))
-    body += ["\tstaticDeepEqual()", "\tstaticConvert()", "\tstaticSetGet()", "\tstaticFmt()"]
+    body += ["\tstaticDeepEqual()", "\tstaticConvert()", "\tstaticSetGet()", "\tstaticIntTable()", "\tstaticFmt()"]
     rfs = rand_formats(seed, 250)
     for i, (f, v) in enumerate(rfs):
         body.append('\tattr("RF.%d", %s, func() string { return fmt.Sprintf(%s, %s) })' % (i, goquote("fmt" + f), goquote(f + "|"), v))
